@@ -95,27 +95,43 @@ ReceiverSet ==
           \cup { << [w EXCEPT !.rsv = 513], "recv-rsv" >>,
                  << [w EXCEPT !.attrs = [a \in 1..n |-> IF w.attrs[a].t \in AkaFixed16 THEN [w.attrs[a] EXCEPT !.rsv = 258] ELSE w.attrs[a]]], "recv-rsv" >> }
           : j \in 1..6 }
-ReceiverSeq == SetToSeqAny(ReceiverSet)
+\* a received packet of more than 4096 octets (larger than any internal read buffer): canonical order, zero reserved octets, five
+\* long attributes the library has no name for
+BigRecv == LET ua(t, n) == [t |-> t, rsv |-> 0, v |-> D(n, t), pad |-> << >>] IN
+           [code |-> 1, id |-> 77, m |-> "aka", sub |-> 1, rsv |-> 0,
+            attrs |-> << AkaAttrPlain(AV(AT_RAND, 16)), AkaAttrPlain(AV(AT_AUTN, 16)), AkaAttrPlain(AV(AT_MAC, 16)),
+                         ua(135, 1018), ua(136, 1018), ua(137, 1018), ua(138, 1018), ua(139, 1018) >>]
+ReceiverSeq == SetToSeqAny(ReceiverSet) \o << << BigRecv, "recv-big" >> >>
 
 \* ---- C16
 KeyLens16 == << 0, 1, 15, 16, 17, 32, 64 >>
 IdPool == << FillT("seeded", 0, 0), Lit(<< 48 >>), Lit(<< 54, 50, 48, 56, 57, 51, 48, 48, 48, 48, 48, 48, 48, 48, 49, 64, 119, 108, 97, 110 >>),
              FillT("zero", 8, 0), FillT("ramp", 128, 128), Lit(<< 255, 254, 192, 128, 237, 160, 128 >>), FillT("seeded", 255, 7) >>
 PrfVector(a, b, c) ==
-  LET ik == FillT("seeded", KeyLens16[a], Seed + 1) ck == FillT("ramp", KeyLens16[b], Seed + 2) id == IdPool[c] IN
-  VectorD("prfprime", IF KeyLens16[a] = 0 \/ KeyLens16[b] = 0 THEN << >> ELSE PrfPrimeDefs(ik, ck, id),
-    << Step("aka_prf", "C16", FALSE, [ik |-> ik, ck |-> ck, identity |-> id],
-            IF KeyLens16[a] = 0 \/ KeyLens16[b] = 0 THEN [panic |-> FALSE, err |-> TRUE, haskeys |-> FALSE]
-            ELSE [panic |-> FALSE, err |-> FALSE] @@ PrfPrimeRec) >>)
+  LET ik == FillT("seeded", KeyLens16[a], Seed + 1) ck == FillT("ramp", KeyLens16[b], Seed + 2) id == IdPool[c]
+      \* a second derivation with inputs of the same lengths and other contents (the caller reuses its buffers), then the first again
+      ik2 == FillT("seeded", KeyLens16[a], Seed + 31) ck2 == FillT("seeded", KeyLens16[b], Seed + 32)
+      empty == KeyLens16[a] = 0 \/ KeyLens16[b] = 0
+      refuse == [panic |-> FALSE, err |-> TRUE, haskeys |-> FALSE] IN
+  VectorD("prfprime", IF empty THEN << >> ELSE PrfPrimeDefs(ik, ck, id) \o PrfPrimeDefsP("B", ik2, ck2, id),
+    << Step("aka_prf", "C16", FALSE, [ik |-> ik, ck |-> ck, identity |-> id], IF empty THEN refuse ELSE [panic |-> FALSE, err |-> FALSE] @@ PrfPrimeRec),
+       Step("aka_prf", "C16", FALSE, [ik |-> ik2, ck |-> ck2, identity |-> id], IF empty THEN refuse ELSE [panic |-> FALSE, err |-> FALSE] @@ PrfPrimeRecP("B")),
+       Step("aka_prf", "C16", FALSE, [ik |-> ik, ck |-> ck, identity |-> id], IF empty THEN refuse ELSE [panic |-> FALSE, err |-> FALSE] @@ PrfPrimeRec) >>)
 
-Count(k) == CASE k = "unknown" -> 8 [] k = "eap" -> Len(EapPool) [] k = "code" -> 256 [] k = "set" -> 7 [] k = "sender" -> Len(EapPool) [] k = "receiver" -> Len(ReceiverSeq)
+\* the big packet through the plain decoder and the decode / encode chain (C14 C12 C20)
+BigEapVector == LET b == EncEapW(BigRecv) IN
+  Vector("eap_big", << Step("eap_decode", "C14", FALSE, [wire |-> b, caps |-> TRUE], ExpectEapDecode(b)),
+                       Step("eap_reencode", "C12", FALSE, [wire |-> b], [stable |-> TRUE] @@ ExpectEapReencode(b)),
+                       Step("eap_reencode", "C20", FALSE, [wire |-> b], [stable |-> TRUE] @@ ExpectEapReencode(b)),
+                       Step("eap_reencode", "C14", FALSE, [wire |-> b], [stable |-> TRUE] @@ ExpectEapReencode(b)) >>)
+Count(k) == CASE k = "unknown" -> 9 [] k = "eap" -> Len(EapPool) [] k = "code" -> 256 [] k = "set" -> 7 [] k = "sender" -> Len(EapPool) [] k = "receiver" -> Len(ReceiverSeq)
               [] k = "prf" -> 49 * Len(IdPool)
 SetTypes == << AT_RAND, AT_AUTN, AT_RES, AT_MAC, AT_KDF_INPUT, AT_KDF, AT_CHECKCODE >>
 Init == stage = 0 /\ kind = "" /\ i = 0
 Next == \/ stage = 0 /\ stage' = 1 /\ kind' \in Kinds /\ i' = 0
         \/ stage = 1 /\ stage' = 2 /\ kind' = kind /\ i' \in 1..Count(kind)
         \/ stage = 2 /\ UNCHANGED << stage, kind, i >>
-Vec == CASE kind = "unknown" -> UnknownAttrVector(i)
+Vec == CASE kind = "unknown" -> IF i = 9 THEN BigEapVector ELSE UnknownAttrVector(i)
          [] kind = "eap" -> EapVector(EapPool[i])
          [] kind = "code" -> CodeVector(i - 1)
          [] kind = "set" -> SetterVector(SetTypes[i])
